@@ -65,6 +65,16 @@ def centroidConfmaps (exp : R → R) (cast : Nat → R) (sigma : R) (stride H W 
     (numInstances : Nat) (centroids : List (Option (R × R))) : List (List (List R)) :=
   multiConfmaps exp cast sigma stride H W numInstances 1 (centroids.map fun c => [c])
 
+/-- `generate_multiconfmaps` on a whole batch **as coded**: `points_batch.reshape(samples·n_inst, …)`
+is folded into a `(samples, …)` accumulator by a broadcasting `maximum`, so every sample receives
+the reduction over the animals of *all* samples. -/
+def multiConfmapsBatch (exp : R → R) (cast : Nat → R) (sigma : R) (stride H W : Nat)
+    (numInstances nNodes : Nat) (batch : List (List (List (Option (R × R))))) :
+    List (List (List (List R))) :=
+  let all := (batch.map (·.take numInstances)).flatten
+  batch.map fun _ =>
+    makeMultiConfmaps exp cast (gridVec W stride) (gridVec H stride) (sigma * cast stride) nNodes all
+
 /-! ### exact side channels used by the driver (same definitions, other `exp`) -/
 
 /-- first index of the maximum of a non-empty list under `<` (ties → first), with the value -/
